@@ -220,7 +220,7 @@ func ruleCompose(mk func(thorough bool) []composeSpec, floor int) ruleFunc {
 			}
 			missing := ""
 			for k := range sp.oracles {
-				if p.funcByShortKey(k) == nil {
+				if p.funcByShortKey(k) == nil && p.externalFunc(k) == nil {
 					missing = k
 				}
 			}
@@ -322,6 +322,12 @@ func runComposeCase(p *Program, it *Interp, sp *composeSpec, cs composeCase) (re
 	sort.Strings(okeys)
 	for _, k := range okeys {
 		of := p.funcByShortKey(k)
+		if of == nil {
+			of = p.externalFunc(k) // "import/path.Name" of a library function
+		}
+		if of == nil {
+			return composeResult{verdict: Undecided, detail: "oracle " + k + " is not a function of the program"}
+		}
 		it.Oracles[of] = sp.oracles[k](of)
 	}
 	it.Faults, it.Finished = nil, nil
@@ -837,4 +843,18 @@ func cloneSpecs(thorough bool) []composeSpec {
 		})
 	}
 	return specs
+}
+
+// externalFunc: a package-level function of an imported library, by "import/path.Name".
+func (p *Program) externalFunc(key string) *ssa.Function {
+	i := strings.LastIndex(key, ".")
+	if i < 0 {
+		return nil
+	}
+	for _, pkg := range p.Prog.AllPackages() {
+		if pkg.Pkg.Path() == key[:i] {
+			return pkg.Func(key[i+1:])
+		}
+	}
+	return nil
 }
